@@ -550,7 +550,14 @@ func c18Body(rc *RunCtx) {
 				d.EditMs[len(d.EditMs)-1] = simrt.NowNs() / 1e6
 				d.EditStamps[len(d.EditStamps)-1] = simrt.Stamp()
 			}
-			disk.ReplaceRaw(d.path, []byte(c18Render(next)))
+			if simrt.ChanceF(1, 8) {
+				// the new content arrives with a modification time in the past (a backup restored
+				// with its time stamp, a file prepared an hour ago and moved into place)
+				simrt.Fault("config_replaced_with_older_mtime")
+				disk.ReplaceRawMtime(d.path, []byte(c18Render(next)), simrt.NowNs()-int64(time.Hour)+int64(e)*1000003)
+			} else {
+				disk.ReplaceRaw(d.path, []byte(c18Render(next)))
+			}
 			simrt.Note("external edit #" + strconv.Itoa(e+1))
 			d.lastChange = simrt.Elapsed()
 		}
